@@ -311,7 +311,7 @@ var errBoom = errors.New("loader failed")
 
 type loadPlan struct {
 	Out     int   // outcome of a single load / of a bulk load
-	Shape   int   // bulk: 0 full, 1 partial, 2 extra, 3 empty map, 4 nil map
+	Shape   int   // bulk: 0 full, 1 partial, 2 extra, 3 empty map, 4 nil map, 5 partial with extra keys
 	Mask    uint64 // which requested keys a partial result contains
 	Extra   []int // extra keys volunteered
 	PanicOf int   // 0 error value, 1 string
@@ -656,11 +656,18 @@ func (e *Env) bulk(kind int, keys, olds []int) (map[int]int, error) {
 				}
 			}
 		}
-	case 1:
+	case 1, 5:
 		res = map[int]int{}
 		for _, k := range keys {
 			if p.Mask&(1<<uint(k&63)) != 0 {
 				res[k] = e.NewValue()
+			}
+		}
+		if p.Shape == 5 { // partial and volunteering: some requested keys are missing, unrequested ones are supplied
+			for _, k := range p.Extra {
+				if _, ok := res[k]; !ok {
+					res[k] = e.NewValue()
+				}
 			}
 		}
 	case 3:
